@@ -18,7 +18,9 @@ inductive CondErr where
   | noUncertaintyInput     -- "No input uncertainty specified."
   | bothSigmaAndFactor     -- "One can specify either `sigma` or `y_cov_factor` …"
   | notPosDef              -- "Covariance not positively definite with jitter=…"
-  | noiseShape             -- "The input noise describes … points but there are … landmarks"
+  | noiseShape             -- "The input noise describes … points but there are … landmarks" (explicit factor);
+                           -- "The per-cell `sigma` has … entries but there are … cells" (driver only: the type
+                           -- `Sigma α n` of the landmark family cannot hold a vector of another length)
   | noCovariance           -- `_check_covariance`
   | noUncertainty          -- `_check_uncertainty`
   | internal
@@ -72,12 +74,13 @@ def sigmaFactor {n : Nat} : Sigma α n → Option (AnyMat α)
   | .scalar s => some ⟨n, n, Mat.ofFn fun i k => if i = k then s else 0⟩
   | .vec v => some ⟨n, n, Mat.ofFn fun i k => if i = k then v.nth i else 0⟩
 
-/-- `_sigma_to_y_cov_factor` for a sigma typed by the landmark count `m` but a factor requested with
-    `rows` rows: a scalar gives `sigma·I_rows`, a vector always `diag(sigma)` (`m × m`). -/
-def sigmaFactorRows {m : Nat} (rows : Nat) : Sigma α m → Option (AnyMat α)
+/-- `_sigma_to_y_cov_factor(sigma, None, rows)` for a sigma typed by the number of cells `n` but a factor
+    requested with `rows` rows (the landmark count): a scalar gives `sigma·I_rows`, a vector always
+    `diag(sigma)` (`n × n`). -/
+def sigmaFactorRows {n : Nat} (rows : Nat) : Sigma α n → Option (AnyMat α)
   | .none => Option.none
   | .scalar s => some ⟨rows, rows, Mat.ofFn fun i k => if i = k then s else 0⟩
-  | .vec v => some ⟨m, m, Mat.ofFn fun i k => if i = k then v.nth i else 0⟩
+  | .vec v => some ⟨n, n, Mat.ofFn fun i k => if i = k then v.nth i else 0⟩
 
 /-- `_sigma_to_y_cov_factor(sigma, y_cov_factor, n)`. -/
 def sigmaToYCovFactor {n : Nat} (sigma : Sigma α n) (ycf : Option (AnyMat α)) :
@@ -87,6 +90,17 @@ def sigmaToYCovFactor {n : Nat} (sigma : Sigma α n) (ycf : Option (AnyMat α)) 
   | s, some M => if s.anyPos then .error .bothSigmaAndFactor else .ok M
   | s, Option.none =>
     match sigmaFactor s with
+    | some M => .ok M
+    | Option.none => .error .noUncertaintyInput
+
+/-- `_sigma_to_y_cov_factor(sigma, y_cov_factor, rows)` for a sigma typed by `n` and a requested size `rows`. -/
+def sigmaToYCovFactorRows {n : Nat} (rows : Nat) (sigma : Sigma α n) (ycf : Option (AnyMat α)) :
+    Except CondErr (AnyMat α) :=
+  match sigma, ycf with
+  | .none, Option.none => .error .noUncertaintyInput
+  | s, some M => if s.anyPos then .error .bothSigmaAndFactor else .ok M
+  | s, Option.none =>
+    match sigmaFactorRows rows s with
     | some M => .ok M
     | Option.none => .error .noUncertaintyInput
 
@@ -171,15 +185,49 @@ def matMulAny {a b : Nat} (A : Mat α a b) (M : AnyMat α) : Except CondErr (Any
   if M.r ≠ b then .error .internal
   else .ok ⟨a, M.c, Mat.ofFn fun i k => nsum b fun t => A.el i t * M.el t k⟩
 
-/-- `LLB = A Aᵀ + noise` of `_LandmarksConditional.__init__`.  The noise factor is sized by the number
-    of landmarks `m` (`_sigma_to_y_cov_factor(sigma, y_cov_factor, xu.shape[0])`); a factor that does
-    not describe `m` points (a per-cell sigma with `m ≠ n`, a supplied `n`-row factor) is refused with
-    a `ValueError`. -/
-def lmLLB {m : Nat} (AAt : Mat α m m) (sigma : Sigma α m) (jitter : α) (ycf : Option (AnyMat α))
+/-- The per-cell branch of `_LandmarksConditional.__init__`: `not y_is_mean and y_cov_factor is None and
+    sigma is not None and ndim(sigma) == 1`.  The vector is typed by the number of CELLS `n`: a vector of any
+    other length is refused by the implementation ("The per-cell `sigma` has … entries but there are … cells",
+    `ValueError`) and is not expressible here (the driver refuses it, `noiseShape`). -/
+def lmPerCell {n : Nat} (sigma : Sigma α n) (ycf : Option (AnyMat α)) (yIsMean : Bool) : Option (Vector α n) :=
+  if yIsMean then Option.none
+  else
+    match ycf, sigma with
+    | Option.none, .vec v => some v
+    | _, _ => Option.none
+
+/-- `variances = where(square(sigma) < jitter, jitter, square(sigma))`. -/
+def cellVariance {n : Nat} (v : Vector α n) (jitter : α) (i : Nat) : α :=
+  let s2 := v.nth i * v.nth i
+  if s2 < jitter then jitter else s2
+
+/-- `scale = 1 / sqrt(variances)`: the whitening `D^-1/2`, `D = diag(max(sigmaᵢ², jitter))`. -/
+def cellScale {n : Nat} (v : Vector α n) (jitter : α) : Vector α n :=
+  vecOfFn fun i => 1 / sqrt (cellVariance v jitter i)
+
+/-- `A * scale[None, :]` (column `k` — cell `k` — times `scale[k]`). -/
+def scaleCols {m n : Nat} (A : Mat α m n) (s : Vector α n) : Mat α m n :=
+  Mat.ofFn fun i k => A.el i k * s.nth k
+
+/-- `r * scale[:, None]` (row `i` — cell `i` — times `scale[i]`, every value column). -/
+def scaleRows {n c : Nat} (R : Mat α n c) (s : Vector α n) : Mat α n c :=
+  Mat.ofFn fun i k => R.el i k * s.nth i
+
+/-- `LLB + eye(m)`. -/
+def addEye {m : Nat} (A : Mat α m m) : Mat α m m :=
+  Mat.ofFn fun i k => A.el i k + (if i = k then 1 else 0)
+
+/-- `LLB = A Aᵀ + noise` of `_LandmarksConditional.__init__` outside the per-cell branch (a scalar sigma, an
+    explicit factor, or `y_is_mean`).  The noise factor is sized by the number of landmarks `m`
+    (`_sigma_to_y_cov_factor(sigma, y_cov_factor, xu.shape[0])`: `sigma·I_m` for a scalar); a supplied factor
+    that does not describe `m` points is refused with a `ValueError`.  (`sigma` is typed by the number of
+    cells `n`: a vector only gets here together with an explicit factor — refused if any entry is positive,
+    ignored otherwise — or with `y_is_mean`, which ignores it.) -/
+def lmLLB {n m : Nat} (AAt : Mat α m m) (sigma : Sigma α n) (jitter : α) (ycf : Option (AnyMat α))
     (yIsMean : Bool) : Except CondErr (Mat α m m) :=
   if yIsMean then .ok (stabilize AAt jitter)
   else
-    match sigmaToYCovFactor sigma ycf with
+    match sigmaToYCovFactorRows m sigma ycf with
     | .error e => .error e
     | .ok F =>
       if F.r ≠ m then .error .noiseShape
@@ -190,50 +238,66 @@ def lmWeights {n m c : Nat} (L LB : Mat α m m) (A : Mat α m n) (r : Mat α n c
   solveUpperTM L (choSolveM LB (matMul A r))
 
 /-- `W` of `_LandmarksConditional` (`with_uncertainty`): the input noise acts on the `n`
-    observations, so the factor is `_sigma_to_y_cov_factor(sigma, y_cov_factor, x.shape[0])` built from
-    the *original* arguments (the supplied factor, or `sigma·I_n`; a missing noise specification is
-    the documented `ValueError`); `dot(A, factor)` needs `n` rows. -/
-def lmUnc {n m : Nat} (L LB : Mat α m m) (A : Mat α m n) (sigma : Sigma α m) (ycf : Option (AnyMat α)) :
+    observations, so the factor is `_sigma_to_y_cov_factor(noise_sigma, noise_factor, x.shape[0])` built from
+    the *original* arguments (the supplied factor, `sigma·I_n`, or `diag(sigma)`; a missing noise
+    specification is the documented `ValueError`) — in the per-cell branch from `(1.0, None)`, the unit factor
+    of the whitened problem, with the whitened `A`; `dot(A, factor)` needs `n` rows. -/
+def lmUnc {n m : Nat} (L LB : Mat α m m) (A : Mat α m n) (sigma : Sigma α n) (ycf : Option (AnyMat α)) :
     Except CondErr (AnyMat α) :=
-  let F? : Except CondErr (AnyMat α) := match sigma, ycf with
-    | .none, Option.none => .error .noUncertaintyInput
-    | s, some M => if s.anyPos then .error .bothSigmaAndFactor else .ok M
-    | s, Option.none =>
-      match sigmaFactorRows n s with
-      | some M => .ok M
-      | Option.none => .error .noUncertaintyInput
-  match F? with
+  match sigmaToYCovFactor sigma ycf with
   | .error e => .error e
   | .ok F =>
     match matMulAny A F with
     | .error e => .error e
     | .ok AF => .ok (solveUpperTAny L (choSolveAny LB AF))
 
-/-- `_LandmarksConditional.__init__` (DTC).  `cholesky(LLB)` is *not* followed by a NaN test in the
-    implementation; the model reports `notPosDef` where the implementation would carry NaNs on. -/
+/-- Second half of `_LandmarksConditional.__init__`, shared by the two branches: `L_B = cholesky(LLB)`, the
+    weights from `(A, r)`, and — only `with_uncertainty` — `W` from the noise arguments `(sigmaU, ycfU)` that
+    are left for the uncertainty.  `cholesky(LLB)` is *not* followed by a NaN test in the implementation; the
+    model reports `notPosDef` where the implementation would carry NaNs on. -/
+def lmCore {n m d c : Nat} (cov : Cov α) (xu : Mat α m d) (mu jitter : α) (L : Mat α m m) (A : Mat α m n)
+    (r : Mat α n c) (LLB? : Except CondErr (Mat α m m)) (sigmaU : Sigma α n) (ycfU : Option (AnyMat α))
+    (withUnc : Bool) : Except CondErr (CondState α m d c) :=
+  match LLB? with
+  | .error e => .error e
+  | .ok LLB =>
+    match chol? LLB with
+    | Option.none => .error .notPosDef
+    | some LB =>
+      let weights := lmWeights L LB A r
+      if !withUnc then
+        .ok { cov := cov, xb := xu, weights := weights, mu := mu, jitter := jitter, nObs := n,
+              L := Option.none, W := Option.none }
+      else
+        match lmUnc L LB A sigmaU ycfU with
+        | .error e => .error e
+        | .ok W =>
+          .ok { cov := cov, xb := xu, weights := weights, mu := mu, jitter := jitter, nObs := n,
+                L := some L, W := some W }
+
+/-- `_LandmarksConditional.__init__` (DTC).  `sigma` is typed by the number of CELLS.
+
+    * per-cell branch (`lmPerCell`: a sigma vector, no explicit factor, values are not the mean): the
+      observations are whitened with `D = diag(max(sigmaᵢ², jitter))` — `A ← A D^-1/2`, `r ← D^-1/2 (y − mu)` —
+      and the unit-noise system `(I + A D⁻¹ Aᵀ) z = A D⁻¹ r` is solved; the uncertainty propagates the unit
+      factor of the whitened problem;
+    * otherwise `LLB = A Aᵀ + noise` with the noise sized by the landmarks (`lmLLB`). -/
 def lmCondInit {n m d c : Nat} (cov : Cov α) (x : Mat α n d) (xu : Mat α m d) (y : Mat α n c)
-    (mu : α) (sigma : Sigma α m) (jitter : α) (ycf : Option (AnyMat α))
+    (mu : α) (sigma : Sigma α n) (jitter : α) (ycf : Option (AnyMat α))
     (yIsMean withUnc : Bool) : Except CondErr (CondState α m d c) :=
   match getL cov xu jitter Option.none with
   | .error e => .error e
   | .ok L =>
     let A := solveLowerM L (gram cov xu x)      -- m × n
-    match lmLLB (matMulT A A) sigma jitter ycf yIsMean with
-    | .error e => .error e
-    | .ok LLB =>
-      match chol? LLB with
-      | Option.none => .error .notPosDef
-      | some LB =>
-        let weights := lmWeights L LB A (residual y mu)
-        if !withUnc then
-          .ok { cov := cov, xb := xu, weights := weights, mu := mu, jitter := jitter, nObs := n,
-                L := Option.none, W := Option.none }
-        else
-          match lmUnc L LB A sigma ycf with
-          | .error e => .error e
-          | .ok W =>
-            .ok { cov := cov, xb := xu, weights := weights, mu := mu, jitter := jitter, nObs := n,
-                  L := some L, W := some W }
+    let r := residual y mu
+    match lmPerCell sigma ycf yIsMean with
+    | some v =>
+      let s := cellScale v jitter
+      let Aw := scaleCols A s
+      lmCore cov xu mu jitter L Aw (scaleRows r s) (.ok (addEye (matMulT Aw Aw))) (.scalar 1)
+        Option.none withUnc
+    | Option.none =>
+      lmCore cov xu mu jitter L A r (lmLLB (matMulT A A) sigma jitter ycf yIsMean) sigma ycf withUnc
 
 /-- `_LandmarksConditionalCholesky.__init__`.  `sigma` doubles as the standard deviation of the
     latent vector (`Stds = diag(sigma)` or `eye(m)*sigma`); a missing `sigma` is the `ValueError` of
